@@ -329,6 +329,9 @@ _ROOT = None
 
 def _worker_init(prop_name, root):
     global _PROP, _ROOT
+    import logging
+
+    logging.disable(logging.CRITICAL)  # signac logs expected failures loudly; the checks observe results, not logs
     _PROP = importlib.import_module(prop_name)
     _ROOT = root
 
